@@ -190,9 +190,9 @@ impl<'a> SpannedDiagnosticFormatter<'a> {
                     SpansKind::DuplicationError => {
                         format!("{} occurrence", Self::ordinal(span_num + 1))
                     }
-                    SpansKind::Error => {
-                        unreachable!("Should contain a single span at the site of the error")
-                    }
+                    // Normally a single span at the site of the error, but e.g. an invalid
+                    // `yacckind` value reports one span per faulty component.
+                    SpansKind::Error => e.to_string(),
                     _ => "Unrecognized spanskind".to_string(),
                 };
                 out.push_str(&self.prefixed_underline_span_with_text(dots, *span, s, '^'));
